@@ -34,7 +34,7 @@ expl("C09", "runtime monitoring: differential oracle (reference selector evaluat
 CHECKS["C15"] = ("exploration", "runtime monitoring over an exhaustively enumerated finite domain: exact rational order oracle, reflexivity, antisymmetry, transitivity on the real compare.Compare",
      "All ordered pairs of a representative boundary-value domain across every Go numeric type and strings are enumerated (exhaustive over that stated finite domain, not over all values); same-kind triples exhaustively in the thorough tier, sampled in quick.", TRUST, "DESIGN.md §6 C15")
 expl("C16", "runtime monitoring: AST-shape oracle using the library's own parser + echo / row-level end-to-end injection monitors",
-     "Held on every generated (template, arguments) explored: same statement shape as the template with sentinel literals, exact echo, exact filter, static text untouched, errors (not panics) for missing/unused/$0.")
+     "Held on every generated (template, arguments) explored: same statement shape as the template with sentinel literals, exact echo, exact filter, static text untouched, errors (not panics) for missing/unused/$0; two prepared commands alive at once and concurrent SanitizeSQL calls return what a lone call returns.")
 expl("C17", "runtime monitoring: metamorphic oracle (option + matching or neutral spelling vs canonical spelling) + echo of literals/aliases/arrays",
      "Held on every generated query explored under all 2^3 option sets.")
 expl("C18", "runtime monitoring: per-function reference implementations compared with real `SELECT f(args)` executions (value and error-ness)",
@@ -47,13 +47,13 @@ expl("C10", "runtime monitoring: process-level crash/hang monitor (recover at th
 CHECKS["C11"] = ("fault_enumeration", "runtime monitoring: cycle-safe input snapshot before/after New+Exec; fault enumeration over every invocation index of an injected failing function (error and three panic kinds)",
      "Held on every generated query explored, on success and on error, with and without Wrapped; for queries with a fault position every crash point k = 1..N is enumerated (exhaustive in k per query, sampled in queries).", TRUST, "DESIGN.md §6 C11")
 expl("C12", "runtime monitoring: plain-data type walk + encoding/json round trip + repeated evaluation, over the full (expression form x clause position) matrix",
-     "Held on every successful query of the enumerated form x position matrix and of the rich grammar: only JSON-representable acyclic values, no engine-internal type or `<-` key, equal results on repetition.")
+     "Held on every successful query of the enumerated form x position matrix, of special select items (ASYNC in plain / UNION / CTE / derived / multi-dimensional sources, FUSE, SETVAR, tuples, dual-star) and of the rich grammar: only JSON-representable acyclic values, no engine-internal type or `<-` key, equal results on repetition with a fresh Query and on a second Exec of the same Query object; heavy PARALLEL joins repeated for schedule-independence.")
 expl("C13", "Go race detector over concurrent and internally-parallel workloads with hook-injected yields + per-goroutine result vs run-alone result + shared-document snapshot",
      "Held on every concurrent workload explored (5 workload kinds, 2..16 goroutines): no race report with genql frames, no child death, no deadlock, no cross-talk, shared document unchanged. Says nothing about schedules the runs did not produce.")
 expl("C14", "runtime monitoring: invocation ledger (atomic sequence numbers) of instrumented user functions vs exec-return, result vs pure-function reference, under injected latency profiles; -race pass with hook yields",
      "Held on every generated (table, select list, latency profile) explored: ASYNC/SPINASYNC invoked exactly once per row and completed before Exec returned, ASYNC values equal the unqualified call, no extra column, ONCE once per query, immediate functions reject ASYNC/SPIN/SPINASYNC.")
 CHECKS["C19"] = ("fault_enumeration", "runtime monitoring: fault enumeration - a failing user function placed in every clause position, every invocation index k = 1..N enumerated; RAISE_WHEN on every row index; type errors in every clause; follow-up query vs pristine copy",
-     "Held for every fault point of every generated query explored: (no rows, error) and an unaffected follow-up. Exhaustive in k per query, sampled in queries.", TRUST, "DESIGN.md §6 C19")
+     "Held for every fault point of every generated query explored: (no rows, error), an unaffected follow-up query on the same input, the same Query object usable again, and a failing query failing again when repeated. Exhaustive in k per query, sampled in queries.", TRUST, "DESIGN.md §6 C19")
 
 def main():
     props = [json.loads(l) for l in open(os.path.join(ROOT, "properties.jsonl"))]
